@@ -7,6 +7,7 @@ import (
 	"os"
 	"os/exec"
 	"path/filepath"
+	"sort"
 	"strings"
 	"sync"
 	"time"
@@ -38,7 +39,13 @@ type solveResult struct {
 	all    map[string]string
 }
 
+var extraModelTerms map[string]*Term
+
+var vcMu sync.Mutex
+
 func buildVC(o *Obligation, assumptions []*Term, modelVars []*Term) string {
+	vcMu.Lock()
+	defer vcMu.Unlock()
 	var asserts []*Term
 	asserts = append(asserts, assumptions[:o.NAssume]...)
 	asserts = append(asserts, o.PC)
@@ -59,13 +66,43 @@ func buildVC(o *Obligation, assumptions []*Term, modelVars []*Term) string {
 		present[t.id] = true
 	}
 	var mv []string
+	var defs []string
 	for _, v := range modelVars {
 		if present[v.id] && (v.Sort.IsBV() || v.Sort == BoolSort) {
 			mv = append(mv, "|"+v.Name+"|")
 		}
 	}
+	if !o.Vacuity {
+		var names []string
+		for n := range extraModelTerms {
+			names = append(names, n)
+		}
+		sort.Strings(names)
+		for _, n := range names {
+			t := extraModelTerms[n]
+			ok := true
+			tl, _ := collect([]*Term{t})
+			for _, x := range tl {
+				if x.Op == "var" && !present[x.id] {
+					ok = false
+				}
+			}
+			if !ok {
+				continue
+			}
+			var tb strings.Builder
+			printTerm(&tb, t, nil, 0)
+			defs = append(defs, fmt.Sprintf("(define-fun |%s| () %s %s)", n, t.Sort.str, tb.String()))
+			mv = append(mv, "|"+n+"|")
+		}
+	}
 	if len(mv) > 0 {
 		sb.WriteString("(get-value (" + strings.Join(mv, " ") + "))\n")
+	}
+	if len(defs) > 0 {
+		out := sb.String()
+		i := strings.LastIndex(out, "(check-sat)")
+		return out[:i] + strings.Join(defs, "\n") + "\n" + out[i:]
 	}
 	return sb.String()
 }
@@ -195,8 +232,6 @@ const maxVCBytes = 4 << 20
 func dischargeAll(res *FuncResult, dir string, timeoutS, seed, par int, modelVars []*Term) {
 	var wg sync.WaitGroup
 	sem := make(chan struct{}, par)
-	var mu sync.Mutex
-	_ = mu
 	for idx, o := range res.Obls {
 		if o.Status != "" {
 			continue
@@ -246,8 +281,58 @@ func dischargeAll(res *FuncResult, dir string, timeoutS, seed, par int, modelVar
 			default:
 				o.Status = "unknown"
 				o.Note = fmt.Sprintf("%v %s", r.all, truncate(r.output, 400))
+				// a conjunction that is not decided as a whole is decided conjunct by conjunct
+				if o.Goal.Op == "and" && len(o.Goal.Args) > 1 && len(o.Goal.Args) <= 128 {
+					allProved := true
+					for ci, cj := range o.Goal.Args {
+						sub := *o
+						sub.Goal = cj
+						vc2 := buildVC(&sub, res.Assumptions, modelVars)
+						f2 := strings.TrimSuffix(file, ".smt2") + fmt.Sprintf("_c%d.smt2", ci)
+						os.WriteFile(f2, []byte(vc2), 0o644)
+						r2 := solve(f2, tmo, seed)
+						o.Ms += r2.ms
+						if r2.status == "sat" {
+							o.Status = "failed"
+							o.Solver = r2.solver
+							o.Model = parseModel(r2.output)
+							o.Detail = f2
+							allProved = false
+							break
+						}
+						if r2.status != "unsat" {
+							allProved = false
+							o.Note = fmt.Sprintf("conjunct %d: %v", ci, r2.all)
+							break
+						}
+						o.Solver = r2.solver + "(per conjunct)"
+					}
+					if allProved {
+						o.Status = "proved"
+					}
+				}
 			}
 		}(o, file)
 	}
 	wg.Wait()
+	// second chance for undecided obligations: alone on the machine, three times the time limit
+	if !noRetry {
+		for idx, o := range res.Obls {
+			if o.Status != "unknown" || o.Vacuity || !strings.HasSuffix(o.Detail, ".smt2") {
+				continue
+			}
+			_ = idx
+			r := solve(o.Detail, 3*timeoutS, seed+1)
+			o.Ms += r.ms
+			switch r.status {
+			case "unsat":
+				o.Status, o.Solver = "proved", r.solver+"(retry)"
+			case "sat":
+				o.Status, o.Solver = "failed", r.solver+"(retry)"
+				o.Model = parseModel(r.output)
+			}
+		}
+	}
 }
+
+var noRetry bool
